@@ -63,7 +63,7 @@ fn dump(mfs: &[MetricFamily], out: &mut String) {
     }
 }
 
-const KINDS: usize = 13;
+const KINDS: usize = 14;
 const SCRIPTS: usize = 5;
 
 /// Build collector `kind` and apply update script `s` (<=3 operations).
@@ -171,6 +171,29 @@ fn build(kind: usize, s: usize) -> Box<dyn Collector> {
             Box::new(v)
         }
         12 => Box::new(Custom { desc: Desc::new("cust".into(), "help cust".into(), vec![], HashMap::new()).unwrap(), variant: s }),
+        13 => {
+            // histograms whose only bucket is the implicit +Inf one, observed or not (an all-default payload)
+            match s {
+                0 => Box::new(Histogram::with_opts(HistogramOpts::new("hinf", "help hinf").buckets(vec![f64::INFINITY])).unwrap()),
+                1 => {
+                    let h = Histogram::with_opts(HistogramOpts::new("hinf", "help hinf").buckets(vec![f64::INFINITY])).unwrap();
+                    h.observe(0.0);
+                    Box::new(h)
+                }
+                2 => {
+                    let v = HistogramVec::new(HistogramOpts::new("hinf", "help hinf").buckets(vec![f64::INFINITY]), &["op"]).unwrap();
+                    let _ = v.with_label_values(&["get"]);
+                    Box::new(v)
+                }
+                3 => {
+                    let v = HistogramVec::new(HistogramOpts::new("hinf", "help hinf").buckets(vec![f64::INFINITY]), &["op"]).unwrap();
+                    let _ = v.with_label_values(&["get"]);
+                    v.with_label_values(&["put"]).observe(-0.0);
+                    Box::new(v)
+                }
+                _ => Box::new(Histogram::with_opts(HistogramOpts::new("hinf", "help hinf")).unwrap()),
+            }
+        }
         _ => {
             let v = HistogramVec::new(HistogramOpts::new("hv", "help hv").buckets(vec![0.25, 2.0]), &["l"]).unwrap();
             for i in 0..s.min(3) {
